@@ -483,6 +483,46 @@ fn eval(a: &[String]) -> String {
       }
       out
     }
+    "lunar_hour_next_scan" => {
+      // LunarHour::next(n) against the instant 2n hours later (C12 12.a), 300 starting instants x 9 step sizes
+      let mut t = SolarTime::from_ymd_hms(2024, 1, 28, 0, 17, 43);
+      let mut out = "NONE".to_string();
+      'scan: for _ in 0..300 {
+        let h = t.get_lunar_hour();
+        for n in [-13isize, -12, -1, 0, 1, 5, 11, 12, 40] {
+          let a = h.next(n).get_solar_time();
+          let b = t.next(n * 7200);
+          if a.get_julian_day().get_day() != b.get_julian_day().get_day() || h.next(n).get_minute() != 17 || h.next(n).get_second() != 43 {
+            out = format!("{}-{}-{} {}h next({})", t.get_year(), t.get_month(), t.get_day(), t.get_hour(), n); break 'scan;
+          }
+        }
+        t = t.next(29 * 3600);
+      }
+      out
+    }
+    "view_next_scan" => {
+      // SixtyCycleDay::next / SixtyCycleHour::next against the stepped civil day / instant
+      let which = a(1);
+      let mut t = SolarTime::from_ymd_hms(2021, 3, 4, 22, 59, 30);
+      let mut out = "NONE".to_string();
+      'scan: for _ in 0..200 {
+        for n in [-100000isize, -61, -1, 0, 1, 30, 86400, 999999] {
+          let bad = if which == 0 {
+            let d = t.get_solar_day();
+            let v = d.get_sixty_cycle_day().next(n).get_solar_day();
+            let w = d.next(n);
+            v.get_julian_day().get_day() != w.get_julian_day().get_day()
+          } else {
+            let v = t.get_sixty_cycle_hour().next(n).get_solar_time();
+            let w = t.next(n);
+            v.get_julian_day().get_day() != w.get_julian_day().get_day()
+          };
+          if bad { out = format!("{}-{}-{} {}:{}:{} next({})", t.get_year(), t.get_month(), t.get_day(), t.get_hour(), t.get_minute(), t.get_second(), n); break 'scan; }
+        }
+        t = t.next(41 * 3600 + 7);
+      }
+      out
+    }
     "fortune_scan" => {
       // decade / yearly fortunes of births on every 3rd day of 2000-2001 (both genders): ages, years and pillars against the rule
       use tyme4rs::tyme::eightchar::ChildLimit;
